@@ -5,6 +5,8 @@ from .. import common, coqterm as ct, gen, impl, pipeline
 from ..admits import admits
 from . import base
 
+_RN = ()                     # registry (class names, in order) of the case being judged; set by oracle()
+MAX_LITERALS, MAX_STRING_LENGTH = 15, 20      # checked against the source by C10_link_MAX_LITERALS / C10_link_MAX_STRING_LENGTH
 RN3 = ("IntString", "FloatString", "BooleanString")
 RN6 = RN3 + ("IsoDateString", "IsoTimeString", "IsoDatetimeString")
 
@@ -50,7 +52,19 @@ def tight(obs, missing, t, why, path):
         elif t is bool:
             ok = any(isinstance(v, bool) for v in obs)
         elif t is str:
-            ok = any(isinstance(v, str) for v in obs)
+            # "string literals overflow to str, several string pseudo-types collapse to str": str needs a REASON among the
+            # observed strings: a plain string (one no registered pseudo-type accepts) of length >= MAX_STRING_LENGTH, more than
+            # MAX_LITERALS distinct plain strings, or strings detected as two different pseudo-types
+            strs = [v for v in obs if isinstance(v, str)]
+            cl = impl.pseudo_classes()
+            det = {x: next((n for n in _RN if impl.accepts(cl[n], x)), None) for x in set(strs)}
+            plain = {x for x, d in det.items() if d is None}
+            ok = bool(strs) and (any(len(x) >= MAX_STRING_LENGTH for x in plain) or len(plain) > MAX_LITERALS
+                                 or len({d for d in det.values() if d}) >= 2)
+            if strs and not ok:
+                why.append(f"{path}: str although the {len(plain)} distinct plain string(s) observed there fit a Literal "
+                           f"(limits {MAX_LITERALS} / {MAX_STRING_LENGTH}) and at most one pseudo-type was detected")
+                return False
         else:
             ok = False
         if not ok:
@@ -130,8 +144,10 @@ def tight_fields(objs, fields, why, path):
 
 
 def oracle(samples, o):
+    global _RN
     oo = dict(pipeline.DEFAULT_OPTS)
     oo.update(o)
+    _RN = tuple(oo["rn"])
     try:
         reg, _ = pipeline.build_registry([("Root", samples)], oo)
     except Exception as e:  # noqa
